@@ -57,6 +57,8 @@ fn montgomery(x: &BigUint, y: &BigUint, m: &BigUint, k: BigDigit, n: usize) -> B
         n
     );
 
+    #[cfg(num_bigint_verif)]
+    crate::verif_probe::hit(crate::verif_probe::Probe::MONTY_MUL);
     let mut z = BigUint::ZERO;
     z.data.resize(n * 2, 0);
 
@@ -79,6 +81,8 @@ fn montgomery(x: &BigUint, y: &BigUint, m: &BigUint, k: BigDigit, n: usize) -> B
         z.data = z.data[n..].to_vec();
     } else {
         {
+            #[cfg(num_bigint_verif)]
+            crate::verif_probe::hit(crate::verif_probe::Probe::MONTY_CARRY_SUB);
             let (first, second) = z.data.split_at_mut(n);
             sub_vv(first, second, &m.data);
         }
@@ -144,6 +148,8 @@ pub(super) fn monty_modpow(x: &BigUint, y: &BigUint, m: &BigUint) -> BigUint {
     // We want the lengths of x and m to be equal.
     // It is OK if x >= m as long as len(x) == len(m).
     if x.data.len() > num_words {
+        #[cfg(num_bigint_verif)]
+        crate::verif_probe::hit(crate::verif_probe::Probe::MONTY_BASE_PREREDUCE);
         x %= m;
         // Note: now len(x) <= numWords, not guaranteed ==.
     }
@@ -215,8 +221,12 @@ pub(super) fn monty_modpow(x: &BigUint, y: &BigUint, m: &BigUint) -> BigUint {
         // so do that unconditionally, but double-check,
         // in case our beliefs are wrong.
         // The div is not expected to be reached.
+        #[cfg(num_bigint_verif)]
+        crate::verif_probe::hit(crate::verif_probe::Probe::MONTY_FINAL_SUB);
         zz -= m;
         if zz >= *m {
+            #[cfg(num_bigint_verif)]
+            crate::verif_probe::hit(crate::verif_probe::Probe::MONTY_FINAL_REM);
             zz %= m;
         }
     }
